@@ -14,8 +14,8 @@ import traceback
 
 from mc import VERIF
 
-EVIDENCE_DIR = os.path.join(VERIF, "evidence")
-REPLAY_DIR = os.path.join(VERIF, "replays")
+EVIDENCE_DIR = os.environ.get("VERIF_EVIDENCE_DIR") or os.path.join(VERIF, "evidence")
+REPLAY_DIR = os.environ.get("VERIF_REPLAY_DIR") or os.path.join(VERIF, "replays")
 KNOWN = os.path.join(VERIF, "known_findings.json")
 SCHEMA = "/root/.vp/EVIDENCE.schema.json"
 
